@@ -41,6 +41,9 @@ type c10Case struct {
 	CRLF    bool      `json:"crlf,omitempty"`
 	NoFinal bool      `json:"no_final_newline,omitempty"`
 	Gzip    bool      `json:"gzip,omitempty"`
+	// GzipCut > 0 (with Gzip): the body is sent as TWO concatenated gzip members (valid gzip, RFC 1952), the first
+	// holding the first GzipCut bytes
+	GzipCut int `json:"gzip_cut,omitempty"`
 	// time rule
 	Field  string `json:"field,omitempty"`
 	Format string `json:"format,omitempty"`
@@ -192,9 +195,15 @@ func c10Run(r *vlib.Run, h http.Handler, cap *capture, c c10Case) {
 	req := httptest.NewRequest("POST", "/_bulk", nil)
 	if c.Gzip {
 		var zb bytes.Buffer
-		zw := gzip.NewWriter(&zb)
-		zw.Write(body)
-		zw.Close()
+		parts := [][]byte{body}
+		if c.GzipCut > 0 && c.GzipCut < len(body) {
+			parts = [][]byte{body[:c.GzipCut], body[c.GzipCut:]}
+		}
+		for _, p := range parts {
+			zw := gzip.NewWriter(&zb)
+			zw.Write(p)
+			zw.Close()
+		}
 		rd = bytes.NewReader(zb.Bytes())
 		req.Header.Set("Content-Encoding", "gzip")
 	} else {
@@ -222,7 +231,7 @@ func c10Run(r *vlib.Run, h http.Handler, cap *capture, c c10Case) {
 		kinds = append(kinds, it.Action+"/"+it.Doc)
 	}
 	sig := func(kind string) string {
-		return fmt.Sprintf("%s items=%v crlf=%v nofinal=%v gzip=%v", kind, kinds, c.CRLF, c.NoFinal, c.Gzip)
+		return fmt.Sprintf("%s items=%v crlf=%v nofinal=%v gzip=%v cut=%d", kind, kinds, c.CRLF, c.NoFinal, c.Gzip, c.GzipCut)
 	}
 	ok2xx := rec.Code >= 200 && rec.Code < 300
 	detail := fmt.Sprintf("body %q\nstatus %d response %q\nstored %q", body, rec.Code, rec.Body.String(), stored)
@@ -250,7 +259,7 @@ func c10Run(r *vlib.Run, h http.Handler, cap *capture, c c10Case) {
 		r.Violation(v.sig, c, v.detail)
 	}
 	if len(vs) == 0 && len(expA.stored) > 0 {
-		r.Distinct("nontrivial", string(body)+fmt.Sprint(c.Gzip))
+		r.Distinct("nontrivial", string(body)+fmt.Sprint(c.Gzip, c.GzipCut))
 	}
 }
 
@@ -549,6 +558,14 @@ func TestVerifC10(t *testing.T) {
 			for _, crlf := range []bool{false, true} {
 				for _, nf := range []bool{false, true} {
 					bodies = append(bodies, c10Case{Items: append([]c10Item{}, cur...), CRLF: crlf, NoFinal: nf, Gzip: (len(bodies)%3 == 0)})
+					if len(bodies)%9 == 1 { // the same body as two gzip members: cut after the first line, and in the middle
+						b := c10Body(bodies[len(bodies)-1])
+						for _, cut := range []int{bytes.IndexByte(b, '\n') + 1, len(b) / 2} {
+							if cut > 0 && cut < len(b) {
+								bodies = append(bodies, c10Case{Items: append([]c10Item{}, cur...), CRLF: crlf, NoFinal: nf, Gzip: true, GzipCut: cut})
+							}
+						}
+					}
 				}
 			}
 		}
@@ -633,7 +650,7 @@ func TestVerifC10(t *testing.T) {
 	recT(nil)
 	ev := r.Get("evaluations")
 	r.Finish(t, "model_checking",
-		fmt.Sprintf("bodies: every sequence of <=%d (action, document) items over %d document shapes (objects incl. nested/escaped/empty, non-objects, three invalid-JSON shapes, empty line, objects padded with JSON whitespace (stored with the padding), an object followed by a no-break space (invalid), object lines of 62..66 and 127..129 bytes around and at twice the %d-byte document/buffer limit) x {LF,CRLF} x {final newline, none}, gzip on every third; plus bad action lines at positions 0..6, an over-long action line and blank lines before actions; through proxyapi.BulkHandler (httptest) over a real bulk.Ingestor with a capturing storage client. Expected outcome from a reference reading of the items: reject (non-2xx, no store call) or the exact ordered list of stored byte strings, one store call, that many response items, distinct IDs timed inside the receive window; a document exactly as long as the limit may be read either way (stored or skipped), but the whole outcome must be the one of one of the two readings. time rule: 4 field names x 5 formats x 11 offsets around both drift borders plus documents 293..7000 years in the past / future, through Ingestor.ProcessDocuments with a fixed request time; every sequence of <=%d documents over 11 time-field shapes (one or two of timestamp/time/ts, unparsable first field, first field out of drift, none) through one request and through one request per document (pooled processors): each document's ID time depends on that document only", maxItems, len(docNames), c10MaxDoc, seqLen),
+		fmt.Sprintf("bodies: every sequence of <=%d (action, document) items over %d document shapes (objects incl. nested/escaped/empty, non-objects, three invalid-JSON shapes, empty line, objects padded with JSON whitespace (stored with the padding), an object followed by a no-break space (invalid), object lines of 62..66 and 127..129 bytes around and at twice the %d-byte document/buffer limit) x {LF,CRLF} x {final newline, none}, gzip on every third, every ninth also as two concatenated gzip members (cut after the first line and in the middle); plus bad action lines at positions 0..6, an over-long action line and blank lines before actions; through proxyapi.BulkHandler (httptest) over a real bulk.Ingestor with a capturing storage client. Expected outcome from a reference reading of the items: reject (non-2xx, no store call) or the exact ordered list of stored byte strings, one store call, that many response items, distinct IDs timed inside the receive window; a document exactly as long as the limit may be read either way (stored or skipped), but the whole outcome must be the one of one of the two readings. time rule: 4 field names x 5 formats x 11 offsets around both drift borders plus documents 293..7000 years in the past / future, through Ingestor.ProcessDocuments with a fixed request time; every sequence of <=%d documents over 11 time-field shapes (one or two of timestamp/time/ts, unparsable first field, first field out of drift, none) through one request and through one request per document (pooled processors): each document's ID time depends on that document only", maxItems, len(docNames), c10MaxDoc, seqLen),
 		map[string]any{
 			"states":                        len(bodies),
 			"transitions":                   ev,
